@@ -25,7 +25,7 @@ from ..objectmodel.builder import (
 from ..util import hasha
 
 
-__compiled_grammar_cache: dict[tuple[str | None, str, int], g.Grammar] = {}
+__compiled_grammar_cache: dict[tuple, g.Grammar] = {}
 
 
 def boot_grammar() -> g.Grammar:
@@ -60,15 +60,6 @@ def compile(
         raise TypeError(
             f'semantics must be an object instance or None, not class {semantics!r}',
         )
-    cache = __compiled_grammar_cache
-
-    key = (name, hasha(grammar), id(semantics))
-    if key in cache:
-        model = cache[key]
-    else:
-        gen = TatSuParserGenerator(name, **settings)
-        model = cache[key] = gen.parse(grammar, **settings)
-
     asmodel = not semantics and (
         asmodel
         or isinstance(builderconfig, BuilderConfig)
@@ -76,20 +67,47 @@ def compile(
         or typedefs is not None
         or constructors is not None
     )
-    if semantics is not None:
-        model.semantics = semantics
-    elif asmodel:
-        # HACK: cheating, but necessary for bw-compatibility
-        builderconfig = BuilderConfig.new(
-            config=builderconfig,
-            synthok=synthok,
-            basetype=basetype,
-            typedefs=typedefs,
-            constructors=constructors,
-        )
-        model.semantics = ModelBuilderSemantics(config=builderconfig)
 
-    model.initialize()
+    # NOTE: the key holds everything the returned model depends on, and a
+    #   cached model is never modified: it is shared by all its callers
+    cache = __compiled_grammar_cache
+    key: Any = (
+        name,
+        hasha(grammar),
+        id(semantics),
+        asmodel,
+        synthok,
+        basetype,
+        tuple(sorted(settings.items())),
+    )
+    if builderconfig is not None or typedefs is not None or constructors is not None:
+        key = None  # the builder options are not hashable
+    try:
+        model = cache.get(key) if key is not None else None
+    except TypeError:  # unhashable setting
+        model, key = None, None
+
+    if model is None:
+        gen = TatSuParserGenerator(name, **settings)
+        model = gen.parse(grammar, **settings)
+
+        if semantics is not None:
+            model.semantics = semantics
+        elif asmodel:
+            # HACK: cheating, but necessary for bw-compatibility
+            builderconfig = BuilderConfig.new(
+                config=builderconfig,
+                synthok=synthok,
+                basetype=basetype,
+                typedefs=typedefs,
+                constructors=constructors,
+            )
+            model.semantics = ModelBuilderSemantics(config=builderconfig)
+
+        model.initialize()
+        if key is not None:
+            cache[key] = model
+
     return model
 
 
